@@ -781,6 +781,53 @@ PROPS["C10"] = {
     ],
 }
 
+# ---- C11 (unit subreg, round 3) -- PARTIAL ----------------------------------------------------------------------------
+TWINS["subreg"] = [("replace_subregister_in_block", "c11.subreg"), ("SubregisterSubstitutionBuilder", "c11.subreg"), ("is_next_def_cast_to_base_register", "c11.castsmall"),
+                   ("replace_output_subregister", "c11.castsmall"), ("replace_input_subregister", "c11.subreg"), ("replace_subregister_in_jump", "c11.subreg"),
+                   ("piece_base_register_assignment_expression_together", "c11.subreg"), ("create_subpiece_from_sub_register", "c11.subreg"),
+                   ("substitute_input_var", "c11.subreg"), ("input_vars", "c11.subreg"), ("", "c11.subreg")]
+PROPS["C11"] = {
+    "units": ["subreg"],
+    "level_text": (
+        "PARTIAL: the sub-register substitution step of the P-Code lifting. All 13 functions of pcode/subregister_substitution/mod.rs (with Expression::input_vars / "
+        "substitute_input_var and From<&RegisterProperties> for Variable) are extracted verbatim from /repo on each run and verified by Verus: for every register "
+        "table, block, register and memory content, the block after the substitution executed with plain variables and the block before it executed with "
+        "sub-registers ALIASING bytes of their base register end with the same contents of all base registers, the same memory and sequence of memory writes, and "
+        "the same values of all jump conditions / indirect targets; afterwards only base registers at full size and temporaries occur. The merge of 'sub-register "
+        "write + cast into its base register' is proved for every cast operation and fires only when the cast writes the whole base register; the builder loop "
+        "terminates; both panic!() sites are unreachable. Expressions are evaluated with the C01 P-Code oracle; the proof depends only on the meaning of SUBPIECE, "
+        "PIECE and variable access (other operators and memory are black boxes)."),
+    "level_note": (
+        "On the pinned tree the block-level statement needed a hypothesis that real input violates: a cast into the base register's NAME at a smaller size "
+        "(`R8_hi:1 = ..; R8:2 = INT_ZEXT R8_hi:1`, the property's 'same-name smaller registers and cast-to-base idioms') was merged and a sub-register write survived "
+        "-- repaired (fix: 19618dc, known_findings.txt); it is now a failing postcondition of is_next_def_cast_to_base_register when reintroduced. NOT decided (the "
+        "larger part of C11): JSON deserialisation of the P-Code project, pcode::Project::normalize and the implicit RAM access defs, the mnemonic tables of "
+        "pcode/expressions.rs, Def::into_ir_def / jump and call translation, Project::into_ir_project (the twins c11.subreg / c11.castsmall drive the public "
+        "into_ir_project and exercise these in bounded form, flat P-Code only). Hypotheses: well-formed register table (entries under their own name, a base "
+        "register is its own base at byte 0, lsb + size <= base size, a differently named register is strictly smaller than its base -- a full-size alias register is "
+        "excluded: observation, seeded/findings/C11-fullsize-alias.json), register variables lie inside their base, assignments to registers are well-sized (the "
+        "code's own debug_assert), nothing is named `loaded_value` (freshness of the builder's temporary). Trusted: restated derives, two borrowed-key axioms for "
+        "HashMap<&K, V>, String extensionality, the (slice, index) model of Peekable<slice::Iter> with verified bodies, Tid::with_id_suffix without contract, the R9 "
+        "substitutions of contracts/subreg.vc, everything assumed by unit bitvector."),
+    "design_ref": "DESIGN.md section 13 (C11)",
+    "default_twins": ["c11.subreg", "c11.castsmall"],
+    "sweep_twins": ["c11.subreg", "c11.castsmall"],
+    "not_covered": [
+        "JSON deserialisation of the P-Code project; pcode::Project::normalize and the implicit RAM access defs",
+        "the mnemonic tables of pcode/expressions.rs; Def::into_ir_def, From<Jmp> for IrJmp, call translation (exercised by the twins, bounded)",
+        "Project::into_ir_project: loop over blocks, extern-symbol and calling-convention arguments, block order repair",
+        "identifiers (tids) of the emitted defs; whether the cast merge is applied whenever possible",
+        "register tables with a register that covers its whole base register under another name",
+    ],
+    "assumptions": [
+        "HYPOTHESES obeys_key_model::<&String>(), sr_table_ok(register_map), sr_block_ok(block)",
+        "shim/subreg.rs: Clone / PartialEq restated; axiom_sr_contains_ref_key; axiom_sr_maps_ref_key_to_value; axiom_sr_string_ext; Peekable / Iter model; sr_unreachable requires false",
+        "@nobody Tid::with_id_suffix; R11 on the builder's field type; 13 R9 substitutions in 8 functions (unit header)",
+        "everything assumed by unit bitvector (apint contracts, derives, R5)",
+        "64-bit target (usize = u64)",
+    ],
+}
+
 
 def twin_for(unit, label):
     for frag, twin in TWINS.get(unit, []):
